@@ -347,8 +347,21 @@ def r01e(model: Model, rr: RuleResult):
         rr.bad(sfi, sfi.node, "stop alpha is not the product of colour alpha, stop-opacity and the shape's opacity", construct="_color_stop: alpha product")
     # shape opacity is threaded: _paint_glyph -> gradient parser -> _common_gradient_parts -> _color_stop; solid fills take it directly
     pfi = model.func("color_glyph", "_paint_glyph")
+    pfi0 = pfi
     gcall = [x for x in calls_in(pfi) if isinstance(x.func, ast.Subscript) and "_GRADIENT_INFO" in norm(x.func)]
-    if len(gcall) == 1 and norm(gcall[0].args[-1]) == "shape.opacity" and norm(gcall[0].args[2]) == "shape.bounding_box()" and norm(gcall[0].args[3]) == "picosvg.view_box()":
+    if not gcall:
+        # the fill may be computed by a function of the same module that _paint_glyph hands its own shape / picosvg to (same names on both sides)
+        for c_ in calls_in(pfi):
+            cal = model.resolve_call(pfi, c_)
+            if cal is not None and cal.module is pfi.module and any(isinstance(x.func, ast.Subscript) and "_GRADIENT_INFO" in norm(x.func) for x in calls_in(cal)):
+                ps_ = [x for x in cal.params]
+                if len(c_.args) == len(ps_) and not c_.keywords and all(isinstance(a_, ast.Name) and a_.id == p_ for a_, p_ in zip(c_.args, ps_)):
+                    pfi = cal
+                    gcall = [x for x in calls_in(pfi) if isinstance(x.func, ast.Subscript) and "_GRADIENT_INFO" in norm(x.func)]
+                    break
+    if not gcall:
+        rr.bad_shape(pfi0, pfi0.node, "gradient parser is not called with (config, el, shape bbox, viewBox, glyph width, shape opacity)", construct="_paint_glyph: gradient parser args")
+    elif len(gcall) == 1 and norm(gcall[0].args[-1]) == "shape.opacity" and norm(gcall[0].args[2]) == "shape.bounding_box()" and norm(gcall[0].args[3]) == "picosvg.view_box()":
         rr.ok("_paint_glyph: gradient parser receives the shape's bounding box, the viewBox, the glyph width and shape.opacity")
     else:
         rr.bad(pfi, pfi.node, "gradient parser is not called with (config, el, shape bbox, viewBox, glyph width, shape opacity)", construct="_paint_glyph: gradient parser args")
@@ -357,7 +370,7 @@ def r01e(model: Model, rr: RuleResult):
         rr.ok("_paint_glyph: solid fill = Color.fromstring(shape.fill, alpha=shape.opacity)")
     else:
         rr.bad(pfi, pfi.node, "solid fill does not take the shape's fill and opacity", construct="_paint_glyph: solid fill")
-    pg = [x for x in calls_in(pfi) if norm(x.func) == "PaintGlyph"]
+    pg = [x for x in calls_in(pfi0) if norm(x.func) == "PaintGlyph"]
     if pg and norm(kwarg(pg[0], "glyph")) == "shape.as_path().d" and norm(kwarg(pg[0], "paint")) == "glyph_paint":
         rr.ok("_paint_glyph: PaintGlyph(glyph=the shape's own path, paint=its own fill)")
     else:
